@@ -7,6 +7,88 @@ VERIF = os.path.dirname(os.path.dirname(os.path.abspath(__file__)))
 ALL = ["C%02d" % i for i in range(1, 21)]
 
 CHECKS = {
+    "C01": dict(
+        category="exploration",
+        text="Accounting monitor over the real parser under gcc ASan+UBSan: whenever parse() accepts a vector, an "
+             "independent reference model (lib/optmodel.py, written from the property text) must accept it too and "
+             "every toggle count, option value, multi-option list and positional must equal the model's accounting. "
+             "Exhaustive over one representative token per token/declaration relation class (incl. all bundles of "
+             "length 2-3 over toggle/option/multi/undeclared letters) for 25 declarations up to vector length 1 "
+             "(quick) / 2 (thorough, 8 declarations), seeded random with the token of interest at random positions "
+             "beyond that. Every relation class must be hit or the run is inconclusive.",
+        design_ref="DESIGN.md section 4, C01",
+        note="Trusts the Python model's reading of the property and the driver's rendering of the arguments object; "
+             "bounded vector length; declarations from a fixed family plus random ones.",
+        technique="reference-model runtime monitor (accounting of every token) under ASan/UBSan",
+    ),
+    "C02": dict(
+        category="exploration",
+        text="Round-trip monitor: a generator with inverse renders random assignments (hostile value pool: empty, "
+             "blanks, '=', leading dashes, line breaks, bytes >= 0x80, 4 KiB) into argument vectors choosing long/"
+             "short/'='/' ' forms, bundling, permutation and `--` placement; the parsed result must equal the "
+             "assignment byte for byte, including provided flags and typed access on decimal texts. The oracle is "
+             "the assignment itself, no parser model. Plus the exhaustive value-pool x 4-spellings product.",
+        design_ref="DESIGN.md section 4, C02",
+        note="Sampled renderings (20k quick / 500k thorough); declarations without defaults and env so that only the "
+             "spelling is under test; toggle names starting with 'no-' are excluded (D18).",
+        technique="round-trip (render then parse) runtime monitoring under ASan/UBSan",
+    ),
+    "C03": dict(
+        category="exploration",
+        text="Exhaustive source matrix {given / not given / --no-} x {env unbound, unset, empty, string} x {default "
+             "variants} x {optional, required} x 3 kinds, crossed with an environment content pool of option-like "
+             "strings, '=', ';', blanks, non-ASCII, 4 KiB and the 30 toggle words; value, provided flag and "
+             "accept/reject judged against the reference model in both directions. Thorough adds random env strings "
+             "and several options sharing one variable.",
+        design_ref="DESIGN.md section 4, C03",
+        note="Environment is set by the driver process itself with setenv (no NUL, no '=' in names). A trailing ';' "
+             "in a multi-option value may or may not yield a trailing empty element (both accepted).",
+        technique="reference-model runtime monitor over an exhaustive source matrix under ASan/UBSan",
+    ),
+    "C04": dict(
+        category="exploration",
+        text="Both directions of the accept/reject boundary against the reference model, the dynamic type of every "
+             "escaping exception (must be parsing_error), ASan/UBSan/_GLIBCXX_ASSERTIONS and a CPU-time budget on every "
+             "parse: enumerated malformed tokens at every position, tokens of up to 131071 bytes (bundles, names, "
+             "values, dash runs), one-defect vectors for each of the 15 documented rejection conditions, random byte "
+             "strings over a dash-heavy alphabet, hostile environments. Every rejection condition must be observed. "
+             "Thorough adds clang ASan+UBSan, a libFuzzer campaign and a valgrind memcheck sample.",
+        design_ref="DESIGN.md section 4, C04",
+        note="Sampled input space; hangs are decided on CPU time (re-run once before reporting); a clean sanitizer "
+             "run is not memory safety.",
+        technique="reference-model differential monitoring + sanitizers + coverage-guided fuzzing",
+    ),
+    "C11": dict(
+        category="exploration",
+        text="Exhaustive over toggle declarations {letter?, reversible?, default none/0/1/3, env unbound/truthy/falsy} "
+             "x all occurrence sequences up to length 3 (quick) / 4 (thorough) over {--t, -t, -tt, -tu, -ut, --no-t, "
+             "--u, other option}, plus every documented env word, all case variants, near misses and random words, "
+             "judged against the reference model (count, provided, parsing_error).",
+        design_ref="DESIGN.md section 4, C11",
+        note="Closed-world vocabulary claim is sampled outside the enumerated variants (200 / 3000 random words).",
+        technique="reference-model runtime monitor, exhaustive small-scope enumeration under ASan/UBSan",
+    ),
+    "C12": dict(
+        category="exploration",
+        text="Accepted counts {none,0,1,2,3,unlimited} x greedy x all vectors up to length 4 (quick) / 5 (thorough) "
+             "over {value, empty, a=b, option=value, option awaiting value, toggle, --}, random vectors aimed at "
+             "exactly limit / limit+1 positionals with hostile tokens behind `--`; positionals compared verbatim and "
+             "get(i)/operator[] probed for every i in [-n-1, n] on every accepted result.",
+        design_ref="DESIGN.md section 4, C12",
+        note="Bounded vector length; uses parse(argc, argv), the entry point a program has.",
+        technique="reference-model runtime monitor, exhaustive small-scope enumeration under ASan/UBSan",
+    ),
+    "C13": dict(
+        category="exploration",
+        text="Every declaration call of all call sequences up to length 4 over a 15-call alphabet (and random "
+             "sequences up to 12 over a larger one) is judged by a model of the declaration table: ok + object "
+             "identity or parser_error; the finished parser must refuse to parse iff two options share a letter and "
+             "every declared name/letter, spelled once, must move exactly its own option. MOVE steps destroy the "
+             "moved-from parser so that ASan sees stale back-references.",
+        design_ref="DESIGN.md section 4, C13",
+        note="Small name/letter alphabets (collisions are the point); addresses are compared only between two moves.",
+        technique="history monitor against a declaration-table model + AddressSanitizer",
+    ),
     "C14": dict(
         category="exploration",
         text="Differential runtime monitor: every 2nd..6th parse() on a long-lived parser is compared, "
@@ -17,6 +99,18 @@ CHECKS = {
         note="Trusts the driver's rendering of the arguments object and that a freshly constructed parser is "
              "the reference; sequences are sampled, not exhaustive.",
         technique="differential runtime monitoring (long-lived vs fresh parser) under ASan/UBSan",
+    ),
+    "C15": dict(
+        category="exploration",
+        text="usage() of random declarations is rendered to five kinds of stream (fresh stringstream, stringstream "
+             "with prior content, std::cout with a non-seekable buffer via explicit and default argument, a real "
+             "pipe); the texts must be byte-identical, a structural parser must find every option in the synopsis and "
+             "exactly one entry per option in group-creation / declaration order with every description, env-hint and "
+             "default word in order, and every line over 80 columns must contain an unbreakable unit that cannot fit.",
+        design_ref="DESIGN.md section 4, C15",
+        note="Wrap positions are not prescribed; about / group descriptions are kept <= 60 chars because they are "
+             "printed unwrapped; ASCII texts only.",
+        technique="output monitor: cross-stream differential + structural text oracle under ASan/UBSan",
     ),
 }
 
